@@ -73,6 +73,39 @@ def by_key(key):
 # ------------------------------------------------------------------------------------------------
 # the real code (worker processes)
 
+_PDBSPELL = {}
+
+
+def spelled(name, no, cc, pos):
+    """one of the accepted spellings of the group name, chosen by the position (deterministic): as tabulated, upper case, mixed
+    case with padding, every character separated by a blank, and -- for the standard settings -- the conventional full
+    Hermann-Mauguin spelling with blanks and '1' place holders ('P 31 2 1', 'P 1 21/c 1').  sg.sg removes white space and case; a
+    lookup that drops or merges tokens is wrong only for spaced names"""
+    k = int(abs(hash(tuple(round(float(x), 6) for x in pos)))) % 5
+    if k == 0:
+        return name
+    if k == 1:
+        return name.upper()
+    if k == 2:
+        return '  ' + name[:1].upper() + name[1:].lower() + ' '
+    if k == 3:
+        return ' '.join(name)
+    if cc == 'rhombohedral':
+        return name
+    if not _PDBSPELL:
+        try:
+            import gen_pdbsym
+            for no_, sp, _cls in gen_pdbsym.pdb_symbols():
+                _PDBSPELL[int(no_)] = sp
+        except Exception:
+            _PDBSPELL[0] = None
+    sp = _PDBSPELL.get(no)
+    # only spellings whose blank-free lower-case form is the tabulated name (then sg.sg must resolve them to the same group)
+    if sp and ''.join(sp.split()).lower() == ''.join(name.split()).lower():
+        return sp
+    return ' '.join(name)
+
+
 def _py_eval(task):
     how, no, cc, name, pos = task
     from xfab import structure
@@ -80,7 +113,7 @@ def _py_eval(task):
         if how == 'no':
             r = structure.multiplicity(list(pos), sgno=no, cell_choice=cc)
         else:
-            r = structure.multiplicity(list(pos), sgname=name)
+            r = structure.multiplicity(list(pos), sgname=spelled(name, no, cc, pos))
         return int(r)
     except Exception as e:      # noqa: the model maps these to raise:<type>
         return 'raise:' + type(e).__name__
@@ -383,7 +416,8 @@ def replay(payload):
     orbit, stab = exact_orbit(key, d, num)
     ns = s['obj'].nsymop
     bad = obs != orbit or stab == 0 or ns % stab != 0 or ns // stab != obs
-    call = ('sgno=%d, cell_choice=%r' % (s['no'], s['cc'])) if how == 'no' else ('sgname=%r' % s['name'])
+    call = ('sgno=%d, cell_choice=%r' % (s['no'], s['cc'])) if how == 'no' else (
+        'sgname=%r' % spelled(s['name'], s['no'], s['cc'], tuple(n / d for n in num)))
     print('replay C15: structure.multiplicity(%r, %s) = %r ; exact orbit size = %d, nsymop/|stabiliser| = %d/%d -> %s' % (
         [n / d for n in num], call, obs, orbit, ns, stab, 'VIOLATION' if bad else 'holds'))
     return 1 if bad else 0
